@@ -17,11 +17,17 @@ def chain_artifacts(i):
     return mats, prods
 
 
-def rules_for(rng, i, names):
+def rules_for(rng, i, names, force=None):
     """rule lists that the chain artifacts satisfy"""
-    k = rng.randrange(4)
+    k = rng.randrange(5)
+    if force is not None:
+        k = force
     if k == 0:
         return [], []
+    if k == 4 and i > 0:
+        # a MATCH rule followed by a tolerant tail: an edit of the MATCH rule alone does not make the links fail
+        return ([["MATCH", "*", "WITH", "PRODUCTS", "FROM", names[i - 1]], ["ALLOW", "*"]],
+                [["MATCH", "src/*", "WITH", "MATERIALS", "FROM", names[i - 1]], ["ALLOW", "*"]])
     if k == 1:
         return [["ALLOW", "*"]], [["ALLOW", "*"]]
     if k == 2 and i > 0:
@@ -32,7 +38,7 @@ def rules_for(rng, i, names):
 
 
 def valid_layout(rng, W, nsteps=None, functionaries=None, thresholds=None, readme="", expires=None,
-                 names=None, all_keys_in_table=True, extra_table_keys=()):
+                 names=None, all_keys_in_table=True, extra_table_keys=(), ruleset=None):
     """returns (layout_doc, plan) where plan[i] = {"name","threshold","keys":[names authorised]}"""
     functionaries = functionaries or ["ed4", "ed5", "ed6", "edp2", "ec-b"]
     if nsteps is None:
@@ -43,7 +49,7 @@ def valid_layout(rng, W, nsteps=None, functionaries=None, thresholds=None, readm
         thr = thresholds[i] if thresholds else rng.choice([1, 1, 1, 2])
         nk = max(thr, 1) + rng.choice([0, 0, 1])
         ks = rng.sample(functionaries, min(nk, len(functionaries)))
-        mr, pr = rules_for(rng, i, names)
+        mr, pr = rules_for(rng, i, names, ruleset)
         steps.append(scen.mk_step(names[i], thr, [W.kid(k) for k in ks], ["cc", f"-o{i}"], mr, pr))
         plan.append({"name": names[i], "threshold": thr, "keys": ks})
     table = sorted(set(k for p in plan for k in p["keys"]) | set(extra_table_keys))
